@@ -146,12 +146,22 @@ def h_grid_bbox(cx, degs, ms, ss, rng):
     if len(degs) == 1:
         obj = geo.make_curve(cx, degs[0], Ks[0], P, None)
         obj.sample_size = ss
-        obj.evaluate(start=cx.const(rng[0]), stop=cx.const(rng[1]))
+        try:
+            obj.evaluate(start=cx.const(rng[0]), stop=cx.const(rng[1]))
+        except (ValueError, geo.M('exceptions').GeomdlException):
+            if rng[0] > rng[1]:
+                return          # a backwards segment may be refused
+            raise
         ends = [obj.evaluate_single(cx.const(rng[0])), obj.evaluate_single(cx.const(rng[1]))]
     else:
         obj = geo.make_surface(cx, degs[0], degs[1], Ks[0], Ks[1], sizes[0], sizes[1], P, None)
         obj.sample_size_u = obj.sample_size_v = ss
-        obj.evaluate(start_u=cx.const(rng[0]), stop_u=cx.const(rng[1]), start_v=cx.const(rng[2]), stop_v=cx.const(rng[3]))
+        try:
+            obj.evaluate(start_u=cx.const(rng[0]), stop_u=cx.const(rng[1]), start_v=cx.const(rng[2]), stop_v=cx.const(rng[3]))
+        except (ValueError, geo.M('exceptions').GeomdlException):
+            if rng[0] > rng[1] or rng[2] > rng[3]:
+                return
+            raise
         ends = [obj.evaluate_single((cx.const(rng[0]), cx.const(rng[2]))), obj.evaluate_single((cx.const(rng[1]), cx.const(rng[3])))]
     pts = obj.evalpts
     cx.check('samples', len(pts) == (ss if len(degs) == 1 else ss * ss), '%d samples' % len(pts))
